@@ -124,14 +124,22 @@ def extract():
         if a.dest in ("project_file", "config"):
             continue
         kind = kinds.get(cn, "otherAction")
-        if a.default is not None:
-            kind = "otherAction"  # a non-None default would override the file unconditionally
+        # The action's `default` is what argparse puts into the namespace when the option is
+        # absent.  It is part of the table (third component): `None` means "absent"; anything
+        # else is written over the file's value by convert_types_from_commandarguments
+        # unconditionally (theorem `cli_table_sound` demands `none`; the model follows the table).
+        # (argparse.SUPPRESS leaves the attribute out of the namespace: same as `None` for FORD)
+        absent = a.default is None or a.default is argparse.SUPPRESS
+        try:
+            default = None if absent else pyval(a.default)
+        except ValueError as e:
+            raise RuntimeError(f"default of command-line option {a.dest}: {e}")
         flags = list(a.option_strings)
         if not flags:
             raise RuntimeError(f"positional argument {a.dest} not expected")
         if not any(fl in help_text for fl in flags):
             raise RuntimeError(f"option {flags} missing from --help (independent view)")
-        cli.append((a.dest, kind, flags))
+        cli.append((a.dest, kind, flags, None if absent else a.default, default))
     if not any(a.dest == "config" for a in parser._actions):
         raise RuntimeError("--config option not found")
     lic = dict(ford.LICENSES)
@@ -154,9 +162,11 @@ def translate():
     out.append("def optionSeparators : List (Str × Str) := [")
     out.append(",\n".join(f"  ({lstr(k)}, {lstr(v)})" for k, v in t["seps"].items()))
     out.append("]\n")
-    out.append("/-- (dest, action) of every settings-carrying argparse option, in declaration order -/")
-    out.append("def cliTable : List (Str × CliKind) := [")
-    out.append(",\n".join(f"  ({lstr(d)}, CliKind.{k})" for d, k, _ in t["cli"]))
+    out.append("/-- (dest, action, default) of every settings-carrying argparse option, in declaration order;")
+    out.append("    `none` = argparse default `None` (option absent from the namespace seen by FORD) -/")
+    out.append("def cliTable : List (Str × CliKind × Option PyVal) := [")
+    out.append(",\n".join(f"  ({lstr(d)}, CliKind.{k}, {'none' if dl is None else 'some (' + dl + ')'})"
+                          for d, k, _, _, dl in t["cli"]))
     out.append("]\n")
     out.append("/-- `INTRINSIC_MODS` -/")
     out.append("def intrinsicMods : List (Str × Str) := [")
